@@ -71,13 +71,24 @@ fn n_leaf() -> BoxedStrategy<T> {
     prop_oneof![3 => (1i32..=9).prop_map(|v| T::Num(v * 100, String::new())), 2 => (-2000i32..=2000).prop_filter("non-zero", |v| *v != 0).prop_map(|v| T::Num(v, String::new())), 1 => proptest::sample::select(vec![50, 25, 150, -100, 200]).prop_map(|v| T::Num(v, String::new()))].boxed()
 }
 
-fn n_expr() -> BoxedStrategy<T> {
-    prop_oneof![
+fn n_expr(opaque: bool) -> BoxedStrategy<T> {
+    let plain = prop_oneof![
         5 => n_leaf(),
         1 => (n_leaf(), n_leaf()).prop_map(|(a, b)| T::Paren(Box::new(T::Add(Box::new(a), Box::new(b))))),
         1 => (n_leaf(), n_leaf()).prop_map(|(a, b)| T::Mul(Box::new(a), Box::new(b))),
     ]
-    .prop_filter("does not evaluate to zero", |t| eval(t, &Env::default()).map(|v| v.abs() > 1e-9).unwrap_or(false))
+    .prop_filter("does not evaluate to zero", |t| eval(t, &Env::default()).map(|v| v.abs() > 1e-9).unwrap_or(false));
+    if !opaque {
+        return plain.boxed();
+    }
+    // unitless sub-expressions that cannot be simplified: a var() in a sum, difference or product
+    let var = || proptest::sample::select(vec!["x", "y"]).prop_map(|n| T::Var(n.into()));
+    prop_oneof![
+        8 => plain,
+        1 => var(),
+        1 => (n_leaf(), var(), any::<bool>()).prop_map(|(a, v, plus)| T::Paren(Box::new(if plus { T::Add(Box::new(a), Box::new(v)) } else { T::Sub(Box::new(v), Box::new(a)) }))),
+        1 => (n_leaf(), var()).prop_map(|(a, v)| T::Paren(Box::new(T::Mul(Box::new(a), Box::new(v))))),
+    ]
     .boxed()
 }
 
@@ -101,9 +112,9 @@ fn l_expr(units: &'static [&'static str], opaque: bool, depth: u32) -> BoxedStra
         4 => leaf,
         3 => (sub(), sub()).prop_map(move |(x, y)| T::Add(b(x), b(y))),
         3 => (sub(), sub()).prop_map(move |(x, y)| T::Sub(b(x), b(paren_if_sum(y)))),
-        2 => (sub(), n_expr()).prop_map(move |(x, n)| T::Mul(b(paren_if_sum(x)), b(n))),
-        1 => (n_expr(), sub()).prop_map(move |(n, x)| T::Mul(b(n), b(paren_if_sum(x)))),
-        2 => (sub(), n_expr()).prop_map(move |(x, n)| T::Div(b(paren_if_sum(x)), b(paren_if_op(n)))),
+        2 => (sub(), n_expr(opaque)).prop_map(move |(x, n)| T::Mul(b(paren_if_sum(x)), b(n))),
+        1 => (n_expr(opaque), sub()).prop_map(move |(n, x)| T::Mul(b(n), b(paren_if_sum(x)))),
+        2 => (sub(), n_expr(opaque)).prop_map(move |(x, n)| T::Div(b(paren_if_sum(x)), b(paren_if_op(n)))),
         2 => sub().prop_map(move |x| T::Paren(b(x))),
         1 => proptest::collection::vec(sub(), 1..4).prop_map(T::Min),
         1 => proptest::collection::vec(sub(), 1..4).prop_map(T::Max),
@@ -232,7 +243,16 @@ fn units_of(t: &T, out: &mut Vec<String>) {
             units_of(a, out);
             units_of(b, out);
         }
-        T::Div(a, _) => units_of(a, out),
+        T::Div(a, b) => {
+            units_of(a, out);
+            // a unitless divisor adds no unit, but an opaque one keeps the whole from being a number
+            let mut l = vec![];
+            let mut sc = 0.0;
+            leaves(b, &mut l, &mut sc);
+            if !l.is_empty() {
+                out.push("?".into());
+            }
+        }
         T::Paren(a) | T::Calc(a) => units_of(a, out),
         T::Min(v) | T::Max(v) => v.iter().for_each(|x| units_of(x, out)),
         T::Clamp(a, b, c) => {
